@@ -1,16 +1,48 @@
-"""C01.S - search discipline of the graph searches (shared by C01, C14.R3): hierarchy/import classification before use,
-push / record / mark conditions, object sets.  The model of the searches is built by rules/search.py."""
+"""C01.S - search discipline of the graph searches (shared by C01, C12.MONO, C14.R3): hierarchy/import classification before use,
+push / record / mark conditions, object sets.  The model of the searches is built by rules/search.py on normalised inline views
+of the public search functions, so the obligations below are about *events with guards*, not about one spelling of the loops.
+
+Every obligation has three outcomes: discharged, VIOLATED (the construct that breaks the necessary condition is named) or
+undecided (the guard talks about a node set whose provenance the model cannot establish)."""
 
 from __future__ import annotations
 
 import ast
 
-from core.guards import atom, f_and, f_not, f_or, implies
-from core.loader import AnalysisError, Repo, calls_in, own_nodes
+from core.guards import Formula, atom, atoms_of, f_and, f_not, f_or, implies
+from core.loader import Repo, norm
 from core.report import Result
 
 from . import search as S
-from .common import dotted, guard_formula, is_attr_call, stmt_of, where
+from .common import dotted, stmt_of, where
+
+
+def _hier_args(repo: Repo, call: ast.Call) -> list[str]:
+    hp = S._hier_params(repo)
+    args = {p: dotted(a) for p, a in zip(hp, call.args)}
+    for k in call.keywords:
+        if k.arg:
+            args[k.arg] = dotted(k.value)
+    if len(hp) == 2 and all(p in args for p in hp):
+        return [args[hp[0]], args[hp[1]]]
+    return [dotted(a) for a in call.args]
+
+
+def _known_sets(m: S.SearchModel) -> set[str]:
+    return set(m.submodule_sets) | set(m.accumulated_sets) | set(m.parent_id_sets) | set(m.visited_sets)
+
+
+def _unknown_sets(m: S.SearchModel, guard: Formula, variables: list[str]) -> list[str]:
+    """Node sets of unknown provenance whose membership the guard tests for one of the variables."""
+    known = _known_sets(m)
+    out = []
+    for a in sorted(atoms_of(guard)):
+        for v in variables:
+            if a.startswith(f"{v} in "):
+                s = a[len(v) + 4:]
+                if s not in known and s not in out and S.opaque_set(m, s):
+                    out.append(s)
+    return out
 
 
 def run_search(repo: Repo, res: Result) -> None:
@@ -18,17 +50,22 @@ def run_search(repo: Repo, res: Result) -> None:
     n = 0
     for m in ms:
         fi = m.fi
-        H = atom(m.hier_atom) if m.hier_atom else None
         # orientation of the hierarchy test
         for hc in m.hier_calls:
-            a = [dotted(x) for x in hc.args]
-            want = [m.popped, m.neighbour_var] if m.direction == "succ" else [m.neighbour_var, m.popped]
+            a = _hier_args(repo, hc)
+            if len(a) != 2 or m.popped not in a:
+                continue  # not a test on an edge of the current node; whether events are classified is decided on their guards
+            # the current node is the parent side for a successor expansion, the child side for a predecessor expansion; the other
+            # side is the neighbour under whatever name the enclosing loop / comprehension / lambda binds it
+            pos = 0 if m.direction == "succ" else 1
+            ok = a[pos] == m.popped and a[1 - pos] != m.popped
+            want = f"({m.popped}, <neighbour>)" if m.direction == "succ" else f"(<neighbour>, {m.popped})"
             n += 1
             res.add(
                 "C01.S",
                 repo.key(fi, stmt_of(hc)) + " [hierarchy test orientation]",
-                a == want,
-                f"parent_child_relationship({', '.join(a)})" + ("" if a == want else f": expected ({', '.join(want)}) for a {'successor' if m.direction == 'succ' else 'predecessor'} expansion"),
+                ok,
+                f"parent_child_relationship({', '.join(a)})" + ("" if ok else f": expected {want} for a {'successor' if m.direction == 'succ' else 'predecessor'} expansion"),
                 where(fi, hc),
                 kind="structural",
             )
@@ -36,20 +73,28 @@ def run_search(repo: Repo, res: Result) -> None:
             if not ev.in_neighbour_loop:
                 continue
             n += 1
-            if H is None:
-                res.add("C01.S", repo.key(fi, stmt_of(ev.call)), False, f"{ev.kind} of `{ev.what}` although neighbours are never classified by {S.HIER}", where(fi, ev.call), kind="dominance")
-                continue
+            key = repo.key(fi, stmt_of(ev.call))
+            H = m.hier(ev.nvar)
             is_h = implies(ev.guard, H)
             not_h = implies(ev.guard, f_not(H))
+            if not is_h and not not_h and ev.kind != "mark" and not any(f".{S.HIER}(" in a for e2 in m.events for a in atoms_of(e2.guard)):
+                res.add("C01.S", key, False, f"{ev.kind} of `{ev.what}` although neighbours are never classified by {S.HIER}", where(fi, ev.call), kind="dominance")
+                continue
             if ev.kind == "record":
-                ok = not_h
-                detail = "recorded only on the import (non-hierarchy) branch" if ok else f"a pair is recorded under `{ev.guard_text}`, which does not exclude hierarchy edges: a package would 'import' its own sub modules"
-                if ok:
-                    pair = S.record_pair(m, ev)
-                    want = (m.popped, m.neighbour_var) if m.direction == "succ" else (m.neighbour_var, m.popped)
-                    if pair != want:
-                        ok = False
-                        detail = f"recorded pair is {pair}, expected (importer, importee) = {want}"
+                if m.role == "submodules":
+                    ok = is_h
+                    detail = "sub modules are collected along hierarchy edges only" if ok else f"`{ev.what}` is collected as a sub module under `{ev.guard_text}`, which does not restrict it to hierarchy edges: imported modules would count as sub modules"
+                else:
+                    ok = not_h
+                    detail = "recorded only on the import (non-hierarchy) branch" if ok else f"a pair is recorded under `{ev.guard_text}`, which does not exclude hierarchy edges: a package would 'import' its own sub modules"
+                    if ok:
+                        pair = S.record_pair(m, ev)
+                        want = (m.popped, ev.nvar) if m.direction == "succ" else (ev.nvar, m.popped)
+                        if pair is None:
+                            res.undecide("C01.S", key + " [record]", f"cannot tell in which order `{ev.what}` names the current node `{m.popped}` and its neighbour `{ev.nvar}`", where(fi, ev.call))
+                        elif pair != want:
+                            ok = False
+                            detail = f"recorded pair is {pair}, expected (importer, importee) = {want}"
             elif ev.kind == "push":
                 if m.role in ("explicit", "submodules"):
                     ok = is_h
@@ -61,56 +106,100 @@ def run_search(repo: Repo, res: Result) -> None:
                 pushes = [p for p in m.events if p.kind == "push" and p.what == ev.what]
                 ok = ev.what == m.popped or (bool(pushes) and implies(ev.guard, f_or([p.guard for p in pushes])))
                 detail = "only expanded nodes are marked visited" if ok else f"`{ev.what}` is marked visited under `{ev.guard_text}` without being pushed under the same condition: a module first seen through an import edge is never expanded"
-            res.add("C01.S", repo.key(fi, stmt_of(ev.call)) + f" [{ev.kind}]", ok, detail, where(fi, ev.call), kind="dominance")
+            res.add("C01.S", key + f" [{ev.kind}]", ok, detail, where(fi, ev.call), kind="dominance")
         # marks outside the neighbour loop: only the popped node
         for ev in m.events:
             if ev.kind == "mark" and not ev.in_neighbour_loop:
                 n += 1
                 ok = ev.what == m.popped
                 res.add("C01.S", repo.key(fi, stmt_of(ev.call)) + " [mark]", ok, "popped node marked visited" if ok else f"`{ev.what}` marked visited instead of the popped node", where(fi, ev.call), kind="structural")
+        # every neighbour of an expanded node and every node of the worklist is examined: the searches collect all pairs / all sub
+        # modules (none is an existence query), so leaving the neighbour iteration or the node loop on a condition skips edges -
+        # and whether an edge is skipped then depends on which other edges exist (monotonicity)
+        exits = S.early_exits(m)
+        for lp, kind_ in [(i.node, "neighbour") for i in m.neighbour_iters if i.gen is None] + ([(m.loop, "outer")] if m.outer_kind in ("while", "for") else []):
+            mine = [x for x in exits if x.loop is lp]
+            if not mine:
+                n += 1
+                res.add("C01.S", repo.key(fi, lp) + f" [{'every neighbour' if kind_ == 'neighbour' else 'every worklist node'} examined]", True, "the loop is only left when it is exhausted (continue / guard clauses skip single elements)", where(fi, lp), kind="structural")
+            for x in mine:
+                n += 1
+                what = "break" if isinstance(x.stmt, ast.Break) else norm(x.stmt)
+                if kind_ == "neighbour":
+                    detail = f"`{what}` under `{x.guard_text}` leaves the iteration over `{norm(m.neighbour_call)}`: the remaining neighbours of `{m.popped}` are never classified, pushed or recorded (neighbours come sorted, so one import can hide later ones: adding an import removes reported pairs)"
+                else:
+                    detail = f"`{what}` under `{x.guard_text}` leaves the node loop while `{m.worklist}` may still hold nodes: their imports are never examined"
+                res.add("C01.S", repo.key(fi, x.anchor) + f" [early exit from the {'neighbour' if kind_ == 'neighbour' else 'node'} loop]", False, detail, where(fi, x.stmt), kind="dominance")
+        # adjustments of the sub-tree sets: only the identifier of a 'sub modules of' filter is taken out / put in (a named module
+        # stands for itself and all its descendants; 'sub modules of X' for X's strict descendants)
+        for op in m.set_ops:
+            if not op.what.endswith("." + S.NODE_ATTR):
+                continue
+            owner = op.what[: -len(S.NODE_ATTR) - 1]
+            n += 1
+            ok = implies(op.guard, atom(f"bool({owner}.{S.PARENT_FLAG})"))
+            res.add(
+                "C01.S",
+                repo.key(fi, stmt_of(op.node)) + " [sub-tree adjustment]",
+                ok,
+                f"`{op.what}` is {'added to' if op.kind == 'add' else 'taken out of'} `{op.var}` only for a 'sub modules of' filter" if ok else f"`{op.what}` is {'added to' if op.kind == 'add' else 'taken out of'} the sub-tree set `{op.var}` although `{owner}` need not be a 'sub modules of' filter: a named module no longer stands for itself and all its descendants",
+                where(fi, op.node),
+                kind="dominance",
+            )
+        rec = [e for e in m.events if e.kind == "record" and e.in_neighbour_loop]
+        pushes = [e for e in m.events if e.kind == "push"]
+        # the model must have seen what the role needs, otherwise nothing above was checked
+        if m.role in ("explicit", "other") and not rec:
+            res.undecide("C01.S", repo.key(fi, m.neighbour_loop if isinstance(m.neighbour_loop, ast.stmt) else stmt_of(m.neighbour_loop)), f"no result is recorded inside the iteration over `{norm(m.neighbour_call)}` (results built in a later pass are not modelled)", where(fi, m.neighbour_call))
+        if m.role in ("explicit", "submodules") and not pushes:
+            res.undecide("C01.S", repo.key(fi, m.loop), "the search never extends its worklist: descendants of the start module are not reached by a push the model recognises", where(fi, m.loop))
         if m.role == "explicit":
             # S4: object set is the object's whole subtree; both endpoints must not be 'sub modules of' parents
-            rec = [e for e in m.events if e.kind == "record"]
-            obj_param = fi.param_names[2]
-            subj_param = fi.param_names[1]
+            subj_param = m.subject_param or fi.param_names[1]
+            obj_param = m.object_param or fi.param_names[2]
             obj_sets = [v for v, p in m.submodule_sets.items() if p == obj_param]
+            excls = [v for v, ps in m.parent_id_sets.items() if sorted(ps) == sorted([subj_param, obj_param])]
             for e in rec:
                 n += 1
-                ok = bool(obj_sets) and implies(e.guard, atom(f"{m.neighbour_var} in {obj_sets[0]}"))
-                res.add(
-                    "C01.S",
-                    repo.key(fi, stmt_of(e.call)) + " [object subtree]",
-                    ok,
-                    f"target must lie in {S.SUBMODULES}(graph, {obj_param})" if ok else f"the recorded target is not restricted to the object's subtree {S.SUBMODULES}(graph, {obj_param}) (a named module stands for itself and all its descendants)",
-                    where(fi, e.call),
-                    kind="dominance",
-                )
-                excl = None
-                for s_ in own_nodes(fi.node):
-                    if isinstance(s_, ast.Assign) and isinstance(s_.value, ast.Call) and dotted(s_.value.func) == "get_parent_nodes":
-                        arg = s_.value.args[0] if s_.value.args else None
-                        if isinstance(arg, (ast.List, ast.Tuple)) and sorted(dotted(x) for x in arg.elts) == sorted([subj_param, obj_param]):
-                            excl = dotted(s_.targets[0])
+                ok = any(implies(e.guard, atom(f"{e.nvar} in {s}")) for s in obj_sets)
+                unknown = [] if ok else _unknown_sets(m, e.guard, [e.nvar])
+                key = repo.key(fi, stmt_of(e.call)) + " [object subtree]"
+                if not ok and unknown and not obj_sets:
+                    res.undecide("C01.S", key, f"the recorded target is restricted to `{unknown[0]}`, a set the model cannot relate to {S.SUBMODULES}(graph, {obj_param})", where(fi, e.call))
+                else:
+                    res.add(
+                        "C01.S",
+                        key,
+                        ok,
+                        f"target must lie in {S.SUBMODULES}(graph, {obj_param})" if ok else f"the recorded target is not restricted to the object's subtree {S.SUBMODULES}(graph, {obj_param}) (a named module stands for itself and all its descendants)",
+                        where(fi, e.call),
+                        kind="dominance",
+                    )
                 n += 1
-                ok = excl is not None and implies(e.guard, f_and([f_not(atom(f"{m.popped} in {excl}")), f_not(atom(f"{m.neighbour_var} in {excl}"))]))
-                res.add(
-                    "C01.S",
-                    repo.key(fi, stmt_of(e.call)) + " [strict descendants]",
-                    ok,
-                    "'sub modules of X' excludes X itself on both sides" if ok else "the parent of a 'sub modules of' filter is not excluded on both sides of the recorded import",
-                    where(fi, e.call),
-                    kind="dominance",
-                )
+                ok = any(implies(e.guard, f_and([f_not(atom(f"{m.popped} in {x}")), f_not(atom(f"{e.nvar} in {x}"))])) for x in excls)
+                unknown = [] if ok else _unknown_sets(m, e.guard, [m.popped, e.nvar])
+                key = repo.key(fi, stmt_of(e.call)) + " [strict descendants]"
+                if not ok and unknown and not excls:
+                    res.undecide("C01.S", key, f"both ends are tested against `{unknown[0]}`, a set the model cannot relate to the parent-module identifiers of ({subj_param}, {obj_param})", where(fi, e.call))
+                else:
+                    res.add(
+                        "C01.S",
+                        key,
+                        ok,
+                        "'sub modules of X' excludes X itself on both sides" if ok else "the parent of a 'sub modules of' filter is not excluded on both sides of the recorded import",
+                        where(fi, e.call),
+                        kind="dominance",
+                    )
         if m.role == "other":
-            subj = fi.param_names[1] if m.direction == "succ" else fi.param_names[2]
+            subj = m.subject_param or (fi.param_names[1] if m.direction == "succ" else fi.param_names[2])
             own = [v for v, p in m.submodule_sets.items() if p == subj]
-            exc = list(m.accumulated_sets)
+            exc = [v for v, p in m.accumulated_sets.items() if p != subj]
             if not own or not exc:
-                raise AnalysisError(f"{fi.fq}: own-subtree / excluded sets not recognised")
-            for e in [e for e in m.events if e.kind == "record"]:
+                res.undecide("C01.S", repo.key(fi, m.loop), f"the subject's own sub-tree ({S.SUBMODULES}(graph, {subj})) / the accumulated sub-trees of the objects are not recognised (own: {own}, excluded: {exc})", where(fi, m.loop))
+                continue
+            for e in rec:
                 n += 1
-                goal = f_and([f_not(atom(f"{m.neighbour_var} in {exc[0]}")), f_not(atom(f"{m.neighbour_var} in {own[0]}"))])
-                ok = implies(e.guard, goal)
+                ok = any(implies(e.guard, f_not(atom(f"{e.nvar} in {x}"))) for x in exc) and any(implies(e.guard, f_not(atom(f"{e.nvar} in {o}"))) for o in own)
                 res.add(
                     "C01.S",
                     repo.key(fi, stmt_of(e.call)) + " [something else]",
@@ -119,21 +208,74 @@ def run_search(repo: Repo, res: Result) -> None:
                     where(fi, e.call),
                     kind="dominance",
                 )
-            # the subject set skips exactly itself when accumulating the excluded set, and 'sub modules of' adjustments exist
-            for c in calls_in(fi.node):
-                if is_attr_call(c, "update") and dotted(c.func.value) == exc[0] and c.args and isinstance(c.args[0], ast.Call) and dotted(c.args[0].func) == S.SUBMODULES:
-                    n += 1
-                    x = dotted(c.args[0].args[1])
-                    a, b = sorted([x, subj])
-                    skip_ok = implies(guard_formula(fi, c), f_not(atom(f"{a} == {b}")))
-                    res.add(
-                        "C01.S",
-                        repo.key(fi, stmt_of(c)) + " [subject not excluded from itself]",
-                        skip_ok,
-                        "an object equal to the subject does not exclude the subject's own subtree" if skip_ok else "the subject's own subtree can be put into the excluded set (the alias 'anything' = 'except itself' would examine nothing)",
-                        where(fi, c),
-                        kind="dominance",
-                    )
-    res.floor("C01.S", 18, n)
+            # the subject set skips exactly itself when accumulating the excluded set
+            for st in m.subtree_sites:
+                if st.collection is None or st.target not in exc:
+                    continue
+                n += 1
+                a, b = sorted([st.arg, subj])
+                skip_ok = subj in st.implicit_skips or implies(st.guard, f_not(atom(f"{a} == {b}")))
+                res.add(
+                    "C01.S",
+                    repo.key(fi, stmt_of(st.call)) + " [subject not excluded from itself]",
+                    skip_ok,
+                    "an object equal to the subject does not exclude the subject's own subtree" if skip_ok else "the subject's own subtree can be put into the excluded set (the alias 'anything' = 'except itself' would examine nothing)",
+                    where(fi, st.call),
+                    kind="dominance",
+                )
+    # vacuity is excluded per search by the role requirements above (models() demands all four searches, every explicit / other
+    # search must record inside its neighbour iteration, explicit / sub-module searches must push); the floor is a backstop
+    res.floor("C01.S", 12, n)
 
 
+def run_lookup(repo: Repo, res: Result, rule_id: str = "C13.R6") -> int:
+    """C13.R6 (search part): every subject and every object named in a query reaches a raising graph lookup on every path.
+    Returns the number of obligations added (for the caller's floor)."""
+    n = 0
+    for f in S.lookup_facts(repo):
+        fi = f.model.fi
+        n += 1
+        res.add(rule_id, f"{fi.relpath}::{getattr(fi, 'shown', fi.qualname)}::lookup of {f.param}", f.ok, f.detail, where(fi, fi.node), kind="dominance")
+    return n
+
+
+def run_closure(repo: Repo, res: Result, rule_id: str = "C03.R1") -> int:
+    """C03.R1 worklist closure of the 'something else' searches, on the model's events: every push stays inside the subject's
+    sub-tree or the excluded objects, the worklist starts from the subject's sub-tree, excluded nodes are not expanded.
+    Returns the number of obligations added."""
+    n = 0
+    for m in S.models(repo):
+        if m.role != "other":
+            continue
+        fi = m.fi
+        shown = getattr(fi, "shown", fi.qualname)
+        subj = m.subject_param or (fi.param_names[1] if m.direction == "succ" else fi.param_names[2])
+        own = [v for v, p in m.submodule_sets.items() if p == subj]
+        exc = [v for v, p in m.accumulated_sets.items() if p != subj]
+        if not own or not exc:
+            res.undecide(rule_id, repo.key(fi, m.loop), f"the subject's own sub-tree / the accumulated sub-trees of the objects are not recognised (own: {own}, excluded: {exc})", where(fi, m.loop))
+            continue
+        pushes = [e for e in m.events if e.kind == "push"]
+        for e in pushes:
+            n += 1
+            goal = f_or([atom(f"{e.what} in {s}") for s in own + exc])
+            ok = implies(e.guard, goal)
+            res.add(
+                rule_id,
+                repo.key(fi, stmt_of(e.call)) + " [push stays inside subject or excluded objects]",
+                ok,
+                "pushed node is inside the subject's subtree or an excluded object (skipped when popped)" if ok else f"`{e.what}` is pushed under `{e.guard_text}`, which does not imply `{e.what} in {own[0]} or {e.what} in {exc[0]}`: modules unrelated to the rule's subject are expanded and their imports reported",
+                where(fi, e.call),
+                kind="dominance",
+            )
+        n += 1
+        ok = bool(m.worklist_sources) and all(s in own for s in m.worklist_sources)
+        anchor = m.worklist_inits[0] if m.worklist_inits else m.loop
+        res.add(rule_id, repo.key(fi, anchor) + " [worklist start]", ok, f"worklist starts from {S.SUBMODULES}(graph, {subj})" if ok else f"worklist starts from {m.worklist_sources}, not from the subject's subtree `{own[0]}`", where(fi, anchor), kind="structural")
+        n += 1
+        if pushes:
+            ok = all(any(implies(m.guard_of(c), f_not(atom(f"{m.popped} in {x}"))) for x in exc) for c in (m.neighbour_calls or [m.neighbour_call]))
+            res.add(rule_id, f"{fi.relpath}::{shown}::excluded nodes are not expanded", ok, "popped nodes in the excluded set are skipped" if ok else f"a popped node in `{exc[0]}` is expanded: imports of the rule's objects are reported as the subject's", where(fi, m.neighbour_call), kind="dominance")
+        else:
+            res.add(rule_id, f"{fi.relpath}::{shown}::no push", True, "the search never extends its worklist beyond the subject's subtree", where(fi, fi.node), nontrivial=False)
+    return n
